@@ -69,8 +69,9 @@ type tracer struct {
 	env     *process.GlobalEnvironment
 	rng     *rand.Rand
 	yield   float64
-	control bool      // gate-controlled (replay) mode
-	lastEv  time.Time // time of the last logged event (record mode: keeps the heartbeat alive while events keep coming)
+	control bool          // gate-controlled (replay) mode
+	settleQ time.Duration // > 0: Quiesce holds the declaration of quiescence back until this long has passed without an event
+	lastEv  time.Time     // time of the last logged event (record mode: keeps the heartbeat alive while events keep coming)
 	cond    *sync.Cond
 	quiesce bool
 	late    int // events after quiesce (premature time-out indicator)
@@ -407,6 +408,30 @@ func (t *tracer) End(p *process.Process, how string) {
 }
 
 func (t *tracer) Quiesce(re *process.RuntimeEnvironment) {
+	// The 50 ms timer has fired. On a loaded machine that happens in the middle of healthy runs (the recorder's own heartbeats can be starved like
+	// everybody else's), so the declaration is held back here, at the time-out site itself, until settleQ has passed - counted in slices this
+	// goroutine was actually awake for, not in wall-clock time - without a single hook event. Heartbeats are taken off the channel meanwhile so
+	// that no process blocks on it.
+	t.mu.Lock()
+	settle, last := t.settleQ, t.lastEv
+	t.mu.Unlock()
+	if settle > 0 {
+		const slice = 500 * time.Microsecond
+		need, quiet := int(settle/slice), 0
+		for quiet < need {
+			for process.VerifDrainHeartbeat(re) {
+			}
+			time.Sleep(slice)
+			t.mu.Lock()
+			cur := t.lastEv
+			t.mu.Unlock()
+			if !cur.Equal(last) {
+				last, quiet = cur, 0
+			} else {
+				quiet++
+			}
+		}
+	}
 	t.mu.Lock()
 	defer t.mu.Unlock()
 	t.emit(Ev{E: "quiesce"})
@@ -643,6 +668,9 @@ func execTraced(t *tracer, re *process.RuntimeEnvironment, procs []*process.Proc
 		if v, err := strconv.Atoi(os.Getenv("VERIF_SETTLE_MS")); err == nil && v >= 0 {
 			settle = time.Duration(v) * time.Millisecond
 		}
+		t.mu.Lock()
+		t.settleQ = settle
+		t.mu.Unlock()
 		stop := make(chan struct{})
 		go func() {
 			for {
@@ -709,6 +737,7 @@ func execTraced(t *tracer, re *process.RuntimeEnvironment, procs []*process.Proc
 	}
 	t.mu.Lock()
 	t.lastEv = time.Now()
+	t.settleQ = settle
 	t.mu.Unlock()
 	stop2 := make(chan struct{})
 	go func() {
